@@ -106,6 +106,7 @@ class _Op(Contract):
               ("frame.input_not_mutated", z3.BoolVal(bool(inp["x"].elem.t.eq(inp["orig"]))))]
         wr = CryomapStub.writes
         cl.append(("one_file_written_in_nyx_order_without_transposition", z3.BoolVal(len(wr) == 1 and wr[0][1] == "out.mrc" and wr[0][3] is False)))
+        cl.append(("file_written_with_the_stacks_data_type", z3.BoolVal(len(wr) == 1 and wr[0][2] is not None and str(wr[0][2]) == str(inp["x"].dtype))))
         if len(wr) == 1:
             W = wr[0][0]
             cl.append(("written_file_holds_the_result", z3.And(*[voxels._size_t(a) == sym.to_z3(b) for a, b in zip(W.shape_, nhw)],
@@ -119,6 +120,10 @@ class _Op(Contract):
 
 class Crop(_Op):
     qual = "crop"
+    configs = [{"in": i, "out": o, "given": g} for i, o in ORDERS for g in ("both", "width-only", "height-only", "none")]
+
+    def cfg_name(self, cfg):
+        return f"{cfg['in']}->{cfg['out']},sizes={cfg['given']}"
 
     def bind(self, cx, cfg):
         it = _interp()
@@ -126,7 +131,10 @@ class Crop(_Op):
         nw, nh = SV(z3.Int("new_w")), SV(z3.Int("new_h"))
         cx.assume(z3.And(nw.t >= 1, nw.t <= w.t, nh.t >= 1, nh.t <= h.t))
         f = it.function("crop")
-        return (lambda: f(x, new_width=nw, new_height=nh, output_file="out.mrc", input_order=cfg["in"], output_order=cfg["out"])), {"x": x, "orig": x.elem.t, "px": px, "nhw": (n, h, w), "nw": nw, "nh": nh}
+        a_w = nw if cfg["given"] in ("both", "width-only") else None
+        a_h = nh if cfg["given"] in ("both", "height-only") else None
+        # a size that is not given defaults to the full image size
+        return (lambda: f(x, new_width=a_w, new_height=a_h, output_file="out.mrc", input_order=cfg["in"], output_order=cfg["out"])), {"x": x, "orig": x.elem.t, "px": px, "nhw": (n, h, w), "nw": (nw if a_w is not None else w), "nh": (nh if a_h is not None else h)}
 
     def post(self, cx, cfg, inp, res):
         n, h, w = inp["nhw"]
